@@ -68,14 +68,29 @@ fn two(i: u8, j: u8, dont: bool, trailing_idx: Option<usize>) {
     assert!(out.len() == n);
 }
 
-// three of the strings (both shapes of a delimited value, and an undelimited one), concretely, under every setting
+// one string per harness (CBMC's cost grows much faster than linearly in the number of calls): the two shapes of a delimited
+// value and an undelimited one, concretely, under every setting
 #[kani::proof]
 #[kani::unwind(9)]
-fn split_one_value_3() {
+fn split_value_comma() {
     let dont: bool = kani::any();
     let trailing_idx = any_trailing();
     one(2, dont, trailing_idx);
+    kani::cover!(dont && trailing_idx == Some(0));
+}
+#[kani::proof]
+#[kani::unwind(9)]
+fn split_value_a_comma_b() {
+    let dont: bool = kani::any();
+    let trailing_idx = any_trailing();
     one(6, dont, trailing_idx);
+    kani::cover!(dont && trailing_idx == Some(0));
+}
+#[kani::proof]
+#[kani::unwind(9)]
+fn split_value_plain() {
+    let dont: bool = kani::any();
+    let trailing_idx = any_trailing();
     one(7, dont, trailing_idx);
     kani::cover!(dont && trailing_idx == Some(0));
 }
